@@ -24,7 +24,7 @@ def generate(rng, tier):
     kinds = ["valid", "valid-other-session", "valid-other-object", "plain-string", "none",
              "missing-method", "none-method", "empty-method", "unknown-method", "method-not-str",
              "missing-ciphertext", "ciphertext-none", "ciphertext-bytes", "ciphertext-int", "ciphertext-list",
-             "bad-base64", "bad-base64-chars", "truncated-1", "truncated-block", "truncated-to-iv", "extended-1", "extended-15",
+             "bad-base64", "bad-base64-chars", "unpadded-base64", "overpadded-base64", "base64-with-newline", "truncated-1", "truncated-block", "truncated-to-iv", "extended-1", "extended-15",
              "empty-ciphertext", "other-key", "wrong-container-list", "wrong-container-int", "wrong-container-bytes",
              "wrong-method-for-ciphertext"]
     for m in METHODS:
@@ -91,6 +91,13 @@ def impl(c):
             value["ciphertext"] = stored["ciphertext"].rstrip("=") + "A"       # wrong length for base64
             if len(value["ciphertext"]) % 4 == 0:
                 value["ciphertext"] += "A"
+        elif k == "unpadded-base64":
+            value["ciphertext"] = stored["ciphertext"].rstrip("=")          # the padding is part of the encoding
+            out["had_padding"] = stored["ciphertext"].endswith("=")
+        elif k == "overpadded-base64":
+            value["ciphertext"] = stored["ciphertext"] + "="
+        elif k == "base64-with-newline":
+            value["ciphertext"] = stored["ciphertext"][:4] + "\n" + stored["ciphertext"][4:]
         elif k == "bad-base64-chars":
             value["ciphertext"] = "Q"            # a single character is never valid base64
         elif k == "truncated-1":
@@ -160,6 +167,8 @@ def oracle(c, obs):
     must_reject = k in MUST_REJECT
     if aes and k in ("truncated-1", "truncated-to-iv", "extended-1", "extended-15", "empty-ciphertext", "bad-base64"):
         must_reject = True          # too short or not block-aligned (bad base64 that still decodes gives a misaligned body)
+    if k == "unpadded-base64" and obs.get("had_padding"):
+        must_reject = True          # not the encoding to_basic writes: "bad base64 ... rejected with an error"
     if k == "empty-ciphertext" and not aes:
         must_reject = False         # XOR of nothing is nothing: the empty plaintext
     if k in MUST_ROUNDTRIP:
